@@ -89,6 +89,6 @@ theorem transform_eq_P_A_Pt (idxs : List Nat) (a : List (List Int))
 /-! Non-vacuity: the hypotheses are met by a concrete non-trivial permutation. -/
 example : IsPerm [3, 1, 0, 2] := by decide
 example : inPlace [3, 1, 0, 2] [10, 11, 12, 13] = some [13, 11, 10, 12] := by decide
-example : ¬ IsPerm [0, 2, 3, 2] ∧ new [0, 2, 3, 2] = .error (.doubleElem 2) := by decide
+example : ¬ IsPerm [0, 2, 3, 2] ∧ new [0, 2, 3, 2] = .error (.doubleElem 2) := ⟨by decide, rfl⟩
 
 end Q1t.Props.C17
